@@ -50,7 +50,7 @@ def plan(tier):
         "shards": 16,
         "budget_s": 45 if q else 600,
         "timeout_s": 600 if q else 3600,
-        "min_nontrivial": 60 if q else 2000,
+        "min_nontrivial": 40 if q else 800,
         "required_counters": ["reads_judged", "cached_reads_served_from_cache", "reads_after_update",
                               "reads_after_caller_mutation", "concurrent_phases", "reads_overlapping_update",
                               "stdlib_crosschecks"],
